@@ -282,6 +282,10 @@ class Project:
         self._load()
         self._index()
         self._link_classes()
+        self.inline_log: List[str] = []
+        if os.environ.get("SA_NO_INLINE") != "1":
+            from .inline import inline_helpers
+            self.inline_log = inline_helpers(self)
         from .canon import canonicalise
         canonicalise(self)
 
